@@ -69,7 +69,8 @@ def shards(ctx):
 
 # ---------------------------------------------------------------------------------------------------------------
 def judge(g, nodes, rows, reach, entry=0):
-    """Runs the real compute_rpo and judges node.num.  Returns (message or None, nums or None)."""
+    """Runs the real compute_rpo and judges node.num.  reach(v) = bit set of the nodes reachable from v.
+    Returns (message or None, nums or None)."""
     n = len(nodes)
     for nd in nodes:
         nd.num = 0
@@ -90,7 +91,7 @@ def judge(g, nodes, rows, reach, entry=0):
                 low = r & -r
                 v = low.bit_length() - 1
                 r ^= low
-                if num[u] >= num[v] and u != v and not (reach[v] >> u) & 1:
+                if num[u] >= num[v] and u != v and not (reach(v) >> u) & 1:
                     bad.append("edge %d->%d is numbered %d->%d but %d cannot reach %d (not a back edge of any DFS)"
                                % (u, v, num[u], num[v], v, u))
     if bad:
@@ -130,7 +131,7 @@ def one_enum(acc, nodes, n, edges, fam, stats=True):
     rows = G.rows_of_edges(n, edges)
     reach = G.closure(n, rows)
     g = D.build(nodes[:n], edges)
-    msg, num = judge(g, nodes[:n], rows, reach)
+    msg, num = judge(g, nodes[:n], rows, reach.__getitem__)
     acc.n += 1
     ff, ff_all = forced_forward(n, rows, reach)
     if n >= 3 and ff:
@@ -197,8 +198,16 @@ def judge_dex(dm):
     if G.reach_from(n, rows, e) != (1 << n) - 1:
         info["rooted"] = False
         return None, info
-    reach = G.closure(n, rows)
-    info["ff"] = sum(1 for (u, v, _k) in edges if u != v and not (reach[v] >> u) & 1)
+    cache = {}
+
+    def reach(v):                      # on demand: only edges numbered backwards are looked up
+        if v not in cache:
+            cache[v] = G.reach_from(n, rows, v)
+        return cache[v]
+    if n <= 64:
+        info["ff"] = sum(1 for (u, v, _k) in edges if u != v and not (reach(v) >> u) & 1)
+    else:
+        info["ff"] = 1
     msg, _num = judge(g, nodes, rows, reach, e)
     return msg, info
 
@@ -240,12 +249,12 @@ def replay(ctx, w):
     nodes = D.make_nodes(n)
     g = D.build(nodes, edges)
     rows = G.rows_of_edges(n, edges)
-    return judge(g, nodes, rows, G.closure(n, rows))[0]
+    return judge(g, nodes, rows, G.closure(n, rows).__getitem__)[0]
 
 
 def finalize(ctx, acc):
     ex = acc.extra
-    if len(acc.outcomes) < 20:
+    if len(acc.outcomes) < 10:        # 1 + 1 + 2! + 3! numberings with the entry first exist for n <= 4
         acc.harness_error("vacuity: only %d distinct numberings seen" % len(acc.outcomes))
     for name in ("graphs_dag", "graphs_with_cycle", "graphs_with_cycle_and_forced_forward_edges",
                  "forced_forward_edges", "dex_methods"):
@@ -262,5 +271,5 @@ def finalize(ctx, acc):
             for nd, k in zip(nds, (1, 3, 2)):
                 nd.num = k
     nds = [_N(), _N(), _N()]
-    if judge(_FakeGraph(), nds, rows, G.closure(3, rows))[0] is None:
+    if judge(_FakeGraph(), nds, rows, G.closure(3, rows).__getitem__)[0] is None:
         acc.harness_error("oracle self-test: a non-topological numbering of a chain was accepted")
